@@ -297,6 +297,34 @@ pub fn run(c: &mut Ctx) {
             if sa.iter(*st).len() != exp.len() {
                 c.fail("iterator length hint is not the number of members", &format!("word {a} start {j}"));
             }
+            // the Iterator / DoubleEndedIterator methods std provides (or an impl may override: seed R5-C19-a overrode
+            // `last`) must agree with the drain by `next`
+            {
+                let it = || sa.iter(*st);
+                let ok = it().last() == exp.last().copied()
+                    && it().count() == exp.len()
+                    && it().rev().last() == exp.first().copied()
+                    && it().min_by_key(|d| d.days_since(*st)) == exp.first().copied()
+                    && it().max_by_key(|d| d.days_since(*st)) == exp.last().copied()
+                    && it().fold(Vec::new(), |mut v, d| {
+                        v.push(d);
+                        v
+                    }) == exp
+                    && it().rfold(Vec::new(), |mut v, d| {
+                        v.push(d);
+                        v
+                    }) == exp.iter().rev().copied().collect::<Vec<_>>()
+                    && (0..8).all(|k| it().nth(k) == exp.get(k).copied() && it().nth_back(k) == exp.iter().rev().nth(k).copied())
+                    && it().position(|d| Some(d) == exp.last().copied()) == exp.len().checked_sub(1)
+                    && it().skip(1).next() == exp.get(1).copied()
+                    && it().step_by(2).collect::<Vec<_>>() == exp.iter().step_by(2).copied().collect::<Vec<_>>();
+                if !ok {
+                    c.fail(
+                        "a provided iterator method (last, count, nth, nth_back, fold, rfold, min/max_by_key, position, skip, step_by, rev) disagrees with the cyclic order from the start day",
+                        &format!("word {a} start {j}: expected order {:?}, last() = {:?}", exp, it().last()),
+                    );
+                }
+            }
             for k in 0u32..(1 << nsched) {
                 // only schedules that differ within the first len+1 pulls are distinct; keep all in thorough
                 if c.tier == Tier::Quick && (k >> (sa.len() + 1)) != 0 {
